@@ -332,6 +332,19 @@ def step_equations_fail(kind, a, outs):
             X = X - X.T
             if not close(r[d], q[0].T @ H - (S + X) @ r[0], 1e-8) or not close(q[d], q[0] @ (S + X), 1e-8):
                 return 'qr-step: the order-%d step equations of _qr_rectangular (model of the theorem) do not hold on the output' % d
+    if kind == 'qr' and n > m and D > 1:
+        # QRTallStep (Proofs/FactorTall.lean): M > N rows than columns; the last step is Q_d = (H - Q_0 R_d) R_0^{-1}
+        q, r = outs
+        M_, N_ = n, m
+        Rinv = np.linalg.inv(r[0])
+        PLm = np.tril(np.ones((N_, N_)), -1)
+        for d in range(1, D):
+            H = a[d] - sum((q[k] @ r[d - k] for k in range(1, d)), np.zeros((M_, N_)))
+            S = -0.5 * sum((q[k].T @ q[d - k] for k in range(1, d)), np.zeros((N_, N_)))
+            X = PLm * (q[0].T @ H @ Rinv - S)
+            X = X - X.T
+            if not close(r[d], q[0].T @ H - (S + X) @ r[0], 1e-8) or not close(q[d], (H - q[0] @ r[d]) @ Rinv, 1e-8):
+                return 'qr-tall-step: the order-%d step equations of _qr_rectangular for a tall matrix (model of the theorem) do not hold on the output' % d
     if kind == 'cholesky':
         l_, = outs
         L0inv = np.linalg.inv(l_[0])
